@@ -441,6 +441,18 @@ C06_PublicParametersOnly(o) ==
     (EndOk(o) /\ IsMc(o) /\ Lower(o)) => EndD(o).cose.labels = <<-3, -2, -1, 1, 3>>
 
 -----------------------------------------------------------------------------
+(* C13 (client part): "no credentials" is reported as credential-not-found during authentication, every other status
+   byte raised by the authenticator passes through unchanged                                                          *)
+FaultedCalls(o) == SelectSeq(o.evs, LAMBDA e : e.ev = "Store" /\ e.d.faulted /\ e.d.call \in {"find", "save", "update"})
+C13_ClientStatusMapping(o) ==
+    (IsClient(o) /\ Ends(o) # <<>> /\ ConsentGiven(o) /\ Len(FaultedCalls(o)) = 1
+        /\ ~(IsMc(o) /\ FaultedCalls(o)[1].d.call = "find")) =>       \* (an exclude-lookup error is ignored by design)
+        LET b == FaultedCalls(o)[1].d.err IN
+        /\ ~EndOk(o)
+        /\ IF IsGa(o) /\ b = 46 THEN EndD(o).werr = "CredentialNotFound"
+           ELSE EndD(o).werr = "AuthenticatorError" /\ EndD(o).err = b
+
+-----------------------------------------------------------------------------
 \* the names of the invariants that are false in o
 Violated(o) ==
     IF ~o.b.api \in {"ctap2", "trait", "client", "u2f"} THEN {}
@@ -475,6 +487,7 @@ Violated(o) ==
     \cup (IF ~C09_Results(o) THEN {"C09.Results"} ELSE {})
     \cup (IF ~C06_NoSecretInOutput(o) THEN {"C06.NoSecretInOutput"} ELSE {})
     \cup (IF ~C06_PublicParametersOnly(o) THEN {"C06.PublicParametersOnly"} ELSE {})
+    \cup (IF ~C13_ClientStatusMapping(o) THEN {"C13.ClientStatusMapping"} ELSE {})
     \cup (IF ~C17_Registration(o) THEN {"C17.Registration"} ELSE {})
     \cup (IF ~C17_Authentication(o) THEN {"C17.Authentication"} ELSE {})
     \cup (IF ~C18_SameAsDirect(o) THEN {"C18.SameAsDirect"} ELSE {})
